@@ -221,13 +221,13 @@ pub fn string_index_of(
         Some(v) => interp.to_js_string(v),
         None => interp.intern(""),
     };
-    let from_index = args.get(1).map(|v| v.to_number() as usize).unwrap_or(0);
+    // The position is clamped to 0..=len: the empty string is still found at len
+    let from_index = args
+        .get(1)
+        .map(|v| v.to_integer_or_infinity().clamp(0.0, s.len() as f64) as usize)
+        .unwrap_or(0);
 
-    if from_index >= s.len() {
-        return Ok(Guarded::unguarded(JsValue::Number(-1.0)));
-    }
-
-    // Use get() for safe slicing - from_index is validated above to be < len
+    // Use get() for safe slicing - from_index is clamped above to be <= len
     match s
         .as_str()
         .get(from_index..)
